@@ -3,7 +3,7 @@ import os
 import subprocess
 import tempfile
 import shutil
-from . import common, lib
+from . import common, lib, astlint
 from .lib import M, FIN, E, sym
 from . import c02, c03
 from fxai.interp import Broken
@@ -78,6 +78,7 @@ def run(tier, seed):
     V = common.Verdict("C16", tier, seed)
     configs = ["K17"] if tier == "quick" else ["K17", "K20"]
     npairs = 0
+    astlint.false_attr(V, "K17", only={"operator+=", "operator-=", "operator*=", "operator/="})
     for cfg in configs:
         try:
             ctx = lib.Ctx(cfg, extras())
